@@ -652,3 +652,484 @@ theorem createSpec_err (sh : Shape) (w : World) (n : Nat) (st : St) :
         exact hmade _ (fillEvs_nofail sh w _ _ (by simpa using hf))
       · simp only [hfa, Bool.not_false, if_true, hc, if_false, Bool.false_eq_true, ↓reduceIte]
         exact hmade [] (by simp)
+theorem initSt_log (sh : Shape) (w : World) : (initSt sh w).log = [] := by
+  unfold initSt; split <;> rfl
+
+theorem quad_proj {r : St × Except Err Fac} {x : (Nat → Cfg) × Nat × List Ev × Except Err Fac} (h : quad r = x) :
+    r.1.heap = x.1 ∧ r.1.next = x.2.1 ∧ r.1.log.reverse = x.2.2.1 ∧ r.2 = x.2.2.2 := by
+  subst h; exact ⟨rfl, rfl, rfl, rfl⟩
+
+theorem errors_factory (sh : Shape) (w : World) (n k : Nat) (hn : n = 1 ∨ n = 2) (st : St) (hl : st.log = []) :
+    match (regNewFactory sh w n st).2 with
+    | .error e => stepErrOk false ⟨(regNewFactory sh w n st).1.log.reverse, .err e⟩ = true
+    | .ok fac =>
+        stepErrOk false ⟨(regNewFactory sh w n st).1.log.reverse, .made⟩ = true ∧
+        (iter (step (callFac sh w fac)) k (regNewFactory sh w n st).1).2.length = k ∧
+        ∀ s ∈ (iter (step (callFac sh w fac)) k (regNewFactory sh w n st).1).2,
+          stepErrOk (n == 1) s = true ∧ isMade s = false := by
+  obtain ⟨_, _, q3, q4⟩ := quad_proj (create_eq sh w n st hl)
+  have hc := createSpec_err sh w n st
+  rw [q3, q4]
+  cases hq : (createSpec sh w n st).2.2.2 with
+  | error e => rw [hq] at hc; exact hc
+  | ok fac =>
+    rw [hq] at hc
+    have hok := createSpec_facOk sh w n st fac hq
+    exact ⟨hc, iter_length _ k _, errors_calls sh w n hn fac hok k _⟩
+/-! ### C18_config -/
+
+/-- two configurations agree on every field but `Mark` -/
+def Agree (c e : Cfg) : Prop := ∀ f, f ≠ markField → c.get f = e.get f
+
+/-- what a product must have been built from -/
+def SeenOk (sh : Shape) (w : World) (seen : Cfg) : Prop :=
+  (sh.cfg = .none → seen = []) ∧ (sh.cfg ≠ .none → Agree seen (expected sh w))
+
+/-- invariant of the one config object owned by a `shared` default-config function -/
+def SharedOk (sh : Shape) (w : World) (heap : Nat → Cfg) : Prop :=
+  sh.dflt = .shared → ∀ f, f ≠ markField →
+    (heap 0).get f = w.dflt.get f ∨ (w.hasFill = true ∧ (heap 0).get f = (w.user ++ w.dflt).get f)
+
+theorem agree_mark {c e : Cfg} (s : Int) (h : Agree c e) : Agree ((markField, s) :: c) e := by
+  intro f hf; rw [get_cons_ne hf]; exact h f hf
+
+theorem initSt_shared (sh : Shape) (w : World) : SharedOk sh w (initSt sh w).heap := by
+  intro hs f _
+  simp [initSt, hs]
+
+theorem markHeap_shared (sh : Shape) (w : World) (kind : CfgKind) (s : Nat) (conf : Option Nat) (heap : Nat → Cfg)
+    (h : SharedOk sh w heap) : SharedOk sh w (markHeap kind s conf heap) := by
+  intro hs f hf
+  have := h hs f hf
+  unfold markHeap
+  split
+  · rename_i c
+    by_cases hc : c = 0
+    · subst hc; simp only [upd_same]; rw [get_cons_ne hf]; exact this
+    · rw [upd_ne _ _ (Ne.symm hc)]; exact this
+  · exact this
+
+theorem getHeap_cell (sh : Shape) (w : World) (heap : Nat → Cfg) (a b c : Nat) (hc : cellOf sh b = some c) :
+    getHeap sh w heap a b c = (if w.hasFill && !w.fillFault a then w.user else []) ++ baseCfg sh w heap := by
+  simp [getHeap, hc]
+
+theorem cellOf_shared {sh : Shape} {b c : Nat} (hs : sh.dflt = .shared) (hc : cellOf sh b = some c) : c = 0 := by
+  unfold cellOf at hc
+  split at hc
+  · simp at hc
+  · simp [hs] at hc; exact hc.symm
+
+theorem getHeap_agree (sh : Shape) (w : World) (heap : Nat → Cfg) (a b c : Nat) (hB : SharedOk sh w heap)
+    (hf : fillFails w a = false) (hc : cellOf sh b = some c) :
+    Agree (getHeap sh w heap a b c) (expected sh w) := by
+  rw [getHeap_cell sh w heap a b c hc]
+  have hfill : (w.hasFill && !w.fillFault a) = w.hasFill := by
+    unfold fillFails at hf
+    cases h1 : w.hasFill <;> simp_all
+  rw [hfill]
+  intro f hfm
+  cases hd : sh.dflt with
+  | absent => simp [baseCfg, expected, defaults, hd]
+  | nilPtr => simp [baseCfg, expected, defaults, hd]
+  | fresh => simp [baseCfg, expected, defaults, hd]
+  | shared =>
+    have hb := hB hd f hfm
+    simp only [baseCfg, expected, defaults, hd]
+    cases h1 : w.hasFill with
+    | false =>
+      simp only [h1, Bool.false_eq_true, if_false, List.nil_append] at hb ⊢
+      rcases hb with hb | hb
+      · exact hb
+      · exact absurd hb.1 (by simp)
+    | true =>
+      simp only [if_true]
+      rw [get_append, get_append]
+      cases hl : List.lookup f w.user with
+      | some v => rfl
+      | none =>
+        rcases hb with hb | hb
+        · exact hb
+        · rw [hb.2, get_append, hl]
+
+theorem getHeap_shared (sh : Shape) (w : World) (heap : Nat → Cfg) (a b : Nat) (hB : SharedOk sh w heap) :
+    SharedOk sh w (getHeap sh w heap a b) := by
+  intro hs f hfm
+  cases hc : cellOf sh b with
+  | none => simp only [getHeap, hc]; exact hB hs f hfm
+  | some c =>
+    have h0 := cellOf_shared hs hc
+    subst h0
+    rw [getHeap_cell sh w heap a b 0 hc]
+    have hb := hB hs f hfm
+    simp only [baseCfg, hs]
+    by_cases hfl : (w.hasFill && !w.fillFault a) = true
+    · simp only [hfl, if_true]
+      have h1 : w.hasFill = true := by simp at hfl; exact hfl.1
+      right
+      refine ⟨h1, ?_⟩
+      rw [get_append, get_append]
+      cases hl : List.lookup f w.user with
+      | some v => rfl
+      | none =>
+        rcases hb with hb | hb
+        · exact hb
+        · rw [hb.2, get_append, hl]
+    · simp only [hfl, Bool.false_eq_true, if_false, List.nil_append]
+      exact hb
+
+theorem seenOk_nil (sh : Shape) (w : World) (hc : sh.cfg = .none) : SeenOk sh w [] :=
+  ⟨fun _ => rfl, fun h => absurd hc h⟩
+
+theorem callSpec_config (sh : Shape) (w : World) (doGet vf pan : Bool) (st : St)
+    (hd : doGet = true ∨ sh.cfg = .none) (hB : SharedOk sh w st.heap) :
+    SharedOk sh w (callSpec sh w doGet vf pan st).1 ∧
+    ∀ p, (callSpec sh w doGet vf pan st).2.2.res = .ok p → SeenOk sh w p.seen := by
+  have hBG : SharedOk sh w (if doGet = true then getHeap sh w st.heap st.fills st.next else st.heap) := by
+    cases doGet
+    · exact hB
+    · exact getHeap_shared sh w _ _ _ hB
+  unfold callSpec
+  by_cases hf : (doGet && fillFails w st.fills) = true
+  · simp only [hf, if_true]
+    exact ⟨hBG, by cases pan <;> simp [conv]⟩
+  · simp only [hf, Bool.false_eq_true, if_false]
+    by_cases hcf : ctorFails sh w st.ctors = true
+    · simp only [hcf, if_true]
+      exact ⟨hBG, by cases pan <;> simp [conv]⟩
+    · simp only [hcf, Bool.false_eq_true, if_false]
+      -- the config the constructor sees
+      have hseen : ∀ copy, (sh.cfg = .none → copy = []) →
+          SeenOk sh w (seenOf sh.cfg (if doGet = true then cellOf sh st.next else none) copy
+            (if doGet = true then getHeap sh w st.heap st.fills st.next else st.heap)) := by
+        intro copy hcopy
+        by_cases hc : sh.cfg = .none
+        · have : seenOf sh.cfg (if doGet = true then cellOf sh st.next else none) copy
+              (if doGet = true then getHeap sh w st.heap st.fills st.next else st.heap) = [] := by
+            simp [seenOf, hc, hcopy hc, cellOf_none hc]
+          rw [this]; exact seenOk_nil sh w hc
+        · have hdg : doGet = true := by rcases hd with h | h; exact h; exact absurd h hc
+          subst hdg
+          simp only [if_true]
+          have hff : fillFails w st.fills = false := by simpa using hf
+          obtain ⟨c, hcell⟩ : ∃ c, cellOf sh st.next = some c := by simp [cellOf, hc]
+          have ha := getHeap_agree sh w st.heap st.fills st.next c hB hff hcell
+          refine ⟨fun h => absurd h hc, fun _ => ?_⟩
+          rw [hcell]
+          cases hk : sh.cfg with
+          | none => exact absurd hk hc
+          | struct => simpa [seenOf] using ha
+          | ptr => simpa [seenOf] using ha
+      cases vf
+      · simp only [Bool.not_false, if_true]
+        refine ⟨markHeap_shared sh w _ _ _ _ hBG, ?_⟩
+        intro p hp
+        simp only [Res.ok.injEq] at hp
+        subst hp
+        exact hseen [] (fun _ => rfl)
+      · simp only [Bool.not_true, Bool.false_eq_true, if_false]
+        -- seen through the captured config
+        have hcap : SeenOk sh w (seenOf sh.cfg
+            (capture sh (if doGet = true then cellOf sh st.next else none)
+              (if doGet = true then getHeap sh w st.heap st.fills st.next else st.heap)).cell
+            (capture sh (if doGet = true then cellOf sh st.next else none)
+              (if doGet = true then getHeap sh w st.heap st.fills st.next else st.heap)).copy
+            (if doGet = true then getHeap sh w st.heap st.fills st.next else st.heap)) := by
+          have := hseen [] (fun _ => rfl)
+          generalize (if doGet = true then cellOf sh st.next else none) = cell at this ⊢
+          generalize (if doGet = true then getHeap sh w st.heap st.fills st.next else st.heap) = hp at this ⊢
+          cases hk : sh.cfg <;> cases cell <;> simp_all [seenOf, capture]
+        by_cases hff : factFails sh w st.facts = true
+        · simp only [hff, if_true]
+          exact ⟨hBG, by cases pan <;> simp [conv]⟩
+        · simp only [hff, Bool.false_eq_true, if_false]
+          refine ⟨markHeap_shared sh w _ _ _ _ hBG, ?_⟩
+          intro p hp
+          simp only [Res.ok.injEq] at hp
+          subst hp
+          exact hcap
+theorem capture_seen (sh : Shape) (w : World) (heap : Nat → Cfg) (a b : Nat) (hB : SharedOk sh w heap)
+    (hf : fillFails w a = false) :
+    SeenOk sh w (seenOf sh.cfg (capture sh (cellOf sh b) (getHeap sh w heap a b)).cell
+      (capture sh (cellOf sh b) (getHeap sh w heap a b)).copy (getHeap sh w heap a b)) := by
+  by_cases hc : sh.cfg = .none
+  · have : seenOf sh.cfg (capture sh (cellOf sh b) (getHeap sh w heap a b)).cell
+        (capture sh (cellOf sh b) (getHeap sh w heap a b)).copy (getHeap sh w heap a b) = [] := by
+      simp [seenOf, capture, hc, cellOf_none hc]
+    rw [this]; exact seenOk_nil sh w hc
+  · obtain ⟨c, hcell⟩ : ∃ c, cellOf sh b = some c := by simp [cellOf, hc]
+    have ha := getHeap_agree sh w heap a b c hB hf hcell
+    refine ⟨fun h => absurd h hc, fun _ => ?_⟩
+    rw [hcell]
+    cases hk : sh.cfg with
+    | none => exact absurd hk hc
+    | struct => simpa [seenOf, capture, hk] using ha
+    | ptr => simpa [seenOf, capture, hk] using ha
+
+theorem createSpec_config (sh : Shape) (w : World) (n : Nat) (st : St) (hB : SharedOk sh w st.heap) :
+    (sh.factory = false → SharedOk sh w (createSpec sh w n st).1) ∧
+    ∀ rf, ((createSpec sh w n st).2.2.2 = .ok (.directFactory rf) ∨ (createSpec sh w n st).2.2.2 = .ok (.wrapFactory rf n)) →
+      SeenOk sh w (seenOf sh.cfg rf.cell rf.copy (createSpec sh w n st).1) := by
+  unfold createSpec
+  by_cases hfa : sh.factory = true
+  · simp only [hfa, Bool.not_true, Bool.false_eq_true, if_false]
+    refine ⟨by simp, ?_⟩
+    by_cases hf : fillFails w st.fills = true
+    · simp [hf]
+    · simp only [hf, Bool.false_eq_true, if_false]
+      by_cases hcf : ctorFails sh w st.ctors = true
+      · simp [hcf]
+      · simp only [hcf, Bool.false_eq_true, if_false]
+        have hcap := capture_seen sh w st.heap st.fills st.next hB (by simpa using hf)
+        intro rf hrf
+        by_cases hty : (sh.iface && (outLen sh.factErr == n)) = true
+        · simp only [hty, if_true] at hrf
+          rcases hrf with hrf | hrf
+          · simp only [Except.ok.injEq, Fac.directFactory.injEq] at hrf
+            subst hrf; exact hcap
+          · simp at hrf
+        · simp only [hty, Bool.false_eq_true, if_false] at hrf
+          rcases hrf with hrf | hrf
+          · simp at hrf
+          · simp only [Except.ok.injEq, Fac.wrapFactory.injEq] at hrf
+            rw [← hrf.1]; exact hcap
+  · simp only [Bool.not_eq_true] at hfa
+    simp only [hfa, Bool.not_false, if_true]
+    by_cases hc : sh.cfg = .none
+    · simp only [hc, if_true]
+      refine ⟨fun _ => hB, ?_⟩
+      intro rf hrf
+      by_cases hf : fillFails w st.fills = true
+      · simp [hf] at hrf
+      · by_cases hty : (sh.iface && (outLen sh.ctorErr == n)) = true <;> simp [hf, hty] at hrf
+    · simp only [hc, if_false]
+      exact ⟨fun _ => hB, by simp⟩
+
+theorem facSpec_config (sh : Shape) (w : World) (rf : RegFac) (pan : Bool) (st : St)
+    (hI : SeenOk sh w (seenOf sh.cfg rf.cell rf.copy st.heap)) :
+    SeenOk sh w (seenOf sh.cfg rf.cell rf.copy (facSpec sh w rf pan st).1) ∧
+    ∀ p, (facSpec sh w rf pan st).2.2.res = .ok p → SeenOk sh w p.seen := by
+  unfold facSpec
+  by_cases hff : factFails sh w st.facts = true
+  · simp only [hff, if_true]
+    exact ⟨hI, by cases pan <;> simp [conv]⟩
+  · simp only [hff, Bool.false_eq_true, if_false]
+    refine ⟨?_, ?_⟩
+    · cases hk : sh.cfg with
+      | none => simpa [seenOf, markHeap, hk] using hI
+      | struct => simpa [seenOf, markHeap, hk] using hI
+      | ptr =>
+        cases hcell : rf.cell with
+        | none => simpa [seenOf, markHeap, hk, hcell] using hI
+        | some c =>
+          simp only [seenOf, markHeap, upd_same]
+          simp only [seenOf, hk, hcell] at hI
+          refine ⟨fun h => by simp [hk] at h, fun _ => agree_mark _ (hI.2 (by simp [hk]))⟩
+    · intro p hp
+      simp only [Res.ok.injEq] at hp
+      subst hp
+      exact hI
+
+theorem config_component (sh : Shape) (w : World) (k : Nat) :
+    ∀ s ∈ (iter (step (regNew sh w)) k (initSt sh w)).2, ∀ p, s.res = .ok p → SeenOk sh w p.seen := by
+  have := iter_inv (step (regNew sh w)) (fun st => SharedOk sh w st.heap)
+    (fun s => ∀ p, s.res = .ok p → SeenOk sh w p.seen)
+    (fun st hI => by
+      obtain ⟨t1, _, t3⟩ := tri_step (step_regNew sh w st)
+      rw [t1, t3]
+      exact callSpec_config sh w true sh.factory false st (.inl rfl) hI) k (initSt sh w) (initSt_shared sh w)
+  exact this.2
+
+theorem config_factory (sh : Shape) (w : World) (n k : Nat) (hn : n = 1 ∨ n = 2) (st : St) (hl : st.log = [])
+    (hB : SharedOk sh w st.heap) (fac : Fac) (hfac : (regNewFactory sh w n st).2 = .ok fac) :
+    ∀ s ∈ (iter (step (callFac sh w fac)) k (regNewFactory sh w n st).1).2, ∀ p, s.res = .ok p → SeenOk sh w p.seen := by
+  obtain ⟨q1, _, _, q4⟩ := quad_proj (create_eq sh w n st hl)
+  rw [q4] at hfac
+  have hok := createSpec_facOk sh w n st fac hfac
+  obtain ⟨c1, c2⟩ := createSpec_config sh w n st hB
+  cases fac with
+  | direct =>
+    have := iter_inv (step (callFac sh w .direct)) (fun st => SharedOk sh w st.heap)
+      (fun s => ∀ p, s.res = .ok p → SeenOk sh w p.seen)
+      (fun st hI => by
+        obtain ⟨t1, _, t3⟩ := tri_step (step_direct sh w n hok.2.2 st)
+        rw [t1, t3]
+        exact callSpec_config sh w false false _ st (.inr hok.2.1) hI) k _ (by rw [q1]; exact c1 hok.1)
+    exact this.2
+  | wrapPlugin m =>
+    obtain ⟨h1, rfl⟩ := hok
+    have := iter_inv (step (callFac sh w (.wrapPlugin m))) (fun st => SharedOk sh w st.heap)
+      (fun s => ∀ p, s.res = .ok p → SeenOk sh w p.seen)
+      (fun st hI => by
+        by_cases hc : sh.cfg = .none
+        · obtain ⟨t1, _, t3⟩ := tri_step (step_wrapPlugin_none sh w m hn st hc)
+          rw [t1, t3]
+          exact callSpec_config sh w false false _ st (.inr hc) hI
+        · obtain ⟨t1, _, t3⟩ := tri_step (step_wrapPlugin sh w m hn st hc)
+          rw [t1, t3]
+          exact callSpec_config sh w true false _ st (.inl rfl) hI) k _ (by rw [q1]; exact c1 h1)
+    exact this.2
+  | directFactory rf =>
+    have := iter_inv (step (callFac sh w (.directFactory rf))) (fun st => SeenOk sh w (seenOf sh.cfg rf.cell rf.copy st.heap))
+      (fun s => ∀ p, s.res = .ok p → SeenOk sh w p.seen)
+      (fun st hI => by
+        obtain ⟨t1, _, t3⟩ := tri_step (step_directFactory sh w rf n hok.2 st)
+        rw [t1, t3]
+        exact facSpec_config sh w rf _ st hI) k _ (by rw [q1]; exact c2 rf (.inl hfac))
+    exact this.2
+  | wrapFactory rf m =>
+    obtain ⟨h1, rfl⟩ := hok
+    have := iter_inv (step (callFac sh w (.wrapFactory rf m))) (fun st => SeenOk sh w (seenOf sh.cfg rf.cell rf.copy st.heap))
+      (fun s => ∀ p, s.res = .ok p → SeenOk sh w p.seen)
+      (fun st hI => by
+        obtain ⟨t1, _, t3⟩ := tri_step (step_wrapFactory sh w rf m hn st)
+        rw [t1, t3]
+        exact facSpec_config sh w rf _ st hI) k _ (by rw [q1]; exact c2 rf (.inr hfac))
+    exact this.2
+/-! ### C18_once -/
+
+theorem createSpec_once (sh : Shape) (w : World) (n : Nat) (st : St) (hfa : sh.factory = true) (r : Res) :
+    onceCreateOk sh w ⟨(createSpec sh w n st).2.2.1, r⟩ = true := by
+  unfold createSpec
+  simp only [hfa, Bool.not_true, Bool.false_eq_true, if_false]
+  by_cases h1 : w.hasFill = true <;> by_cases h2 : w.fillFault st.fills = true <;>
+  by_cases hd : (sh.cfg = .none ∨ sh.dflt = .absent) <;> by_cases hcf : ctorFails sh w st.ctors = true <;>
+  simp [onceCreateOk, fillFails, fillEvs, dfltEvs, h1, h2, hd, hcf, isDflt, isFill, isCtor, isFact, fillFailed,
+    List.countP_cons, List.countP_nil]
+
+theorem facSpec_once (sh : Shape) (w : World) (rf : RegFac) (pan : Bool) (st : St) :
+    onceCallOk (facSpec sh w rf pan st).2.2 = true := by
+  unfold facSpec
+  by_cases hff : factFails sh w st.facts = true <;> simp [hff, onceCallOk, isFact, List.countP_cons]
+
+theorem once_factory (sh : Shape) (w : World) (n k : Nat) (hn : n = 1 ∨ n = 2) (st : St) (hl : st.log = [])
+    (hfa : sh.factory = true) :
+    (∀ r, onceCreateOk sh w ⟨(regNewFactory sh w n st).1.log.reverse, r⟩ = true) ∧
+    ∀ fac, (regNewFactory sh w n st).2 = .ok fac →
+      ∀ s ∈ (iter (step (callFac sh w fac)) k (regNewFactory sh w n st).1).2, onceCallOk s = true := by
+  obtain ⟨_, _, q3, q4⟩ := quad_proj (create_eq sh w n st hl)
+  refine ⟨fun r => by rw [q3]; exact createSpec_once sh w n st hfa r, ?_⟩
+  intro fac hfac
+  rw [q4] at hfac
+  have hok := createSpec_facOk sh w n st fac hfac
+  have := iter_inv (step (callFac sh w fac)) (fun _ => True) (fun s => onceCallOk s = true)
+    (fun st _ => ⟨trivial, by
+      rcases callFac_cases sh w n hn fac hok st with ⟨hf, _⟩ | ⟨_, rf, _, h⟩
+      · rw [hfa] at hf; exact absurd hf (by simp)
+      · rw [(tri_step h).2.2]; exact facSpec_once sh w rf _ st⟩) k (regNewFactory sh w n st).1 trivial
+  exact this.2
+/-! ### C18_fresh -/
+
+theorem get_cons_self (k : Nat) (v : Int) (c : Cfg) : Cfg.get ((k, v) :: c) k = v := by
+  simp [Cfg.get, List.lookup]
+
+theorem cellOf_fresh {sh : Shape} (hc : sh.cfg ≠ .none) (hs : sh.dflt ≠ .shared) (n : Nat) : cellOf sh n = some n := by
+  simp [cellOf, hc, hs]
+
+theorem nextG_fresh {sh : Shape} (hc : sh.cfg ≠ .none) (hs : sh.dflt ≠ .shared) (n : Nat) : nextG sh true n = n + 1 := by
+  simp [nextG, hc, hs]
+
+theorem upd_lt (h : Nat → Cfg) {c i : Nat} (v : Cfg) (hlt : i < c) : upd h c v i = h i :=
+  upd_ne h v (Nat.ne_of_lt hlt)
+
+@[simp] theorem conv_ne_ok (pan : Bool) (e : Err) (p : Product) : (conv pan e = .ok p) = False := by
+  cases pan <;> simp [conv]
+
+@[simp] theorem product?_conv (evs : List Ev) (pan : Bool) (e : Err) : product? ⟨evs, conv pan e⟩ = none := by
+  cases pan <;> simp [conv, product?]
+
+@[simp] theorem product?_ok (evs : List Ev) (p : Product) : product? ⟨evs, .ok p⟩ = some p := rfl
+
+@[simp] theorem fillAddr_dflt (sh : Shape) : List.findSome? fillAddrEv (dfltEvs sh) = none := by
+  unfold dfltEvs; split <;> simp [fillAddrEv]
+
+@[simp] theorem ctorConf_dflt (sh : Shape) : List.findSome? ctorConfEv (dfltEvs sh) = none := by
+  unfold dfltEvs; split <;> simp [ctorConfEv]
+
+set_option maxHeartbeats 1000000 in
+theorem callSpec_freshCall (sh : Shape) (w : World) (vf pan : Bool) (st : St)
+    (hc : sh.cfg ≠ .none) (hs : sh.dflt ≠ .shared) (hvf : vf = sh.factory) :
+    freshCallOk sh w (callSpec sh w true vf pan st).2.2 = true := by
+  subst hvf
+  unfold callSpec
+  simp only [cellOf_fresh hc hs, if_true, Bool.true_and]
+  obtain ⟨factory, cfg, ctorErr, factErr, iface, dflt⟩ := sh
+  simp only at hc hs
+  by_cases h1 : w.hasFill = true <;> by_cases h2 : w.fillFault st.fills = true <;>
+  by_cases hcf : (ctorErr && w.ctorFault st.ctors) = true <;>
+  by_cases hff : (factErr && w.factFault st.facts) = true <;>
+  cases factory <;> cases cfg <;> cases dflt <;>
+  simp [freshCallOk, fillFails, ctorFails, factFails, fillEvs, dfltEvs, h1, h2, hcf, hff, isDflt, isFill, isCtor, isFact,
+    fillFailed, ctorFailed, fillAddr?, ctorConf?, fillAddrEv, ctorConfEv, prodCell?, shownConf, capture, cellOf,
+    List.countP_cons, List.countP_nil, List.findSome?_cons] at hc hs ⊢
+
+set_option maxHeartbeats 1000000 in
+/-- allocation facts of one reconfiguring call: the three identities a step can show are the fresh cell, nothing
+below the frontier is touched, a pointer-holding product reads its own serial number -/
+theorem callSpec_alloc (sh : Shape) (w : World) (vf pan : Bool) (st : St)
+    (hc : sh.cfg ≠ .none) (hs : sh.dflt ≠ .shared) :
+    (callSpec sh w true vf pan st).2.1 = st.next + 1 ∧
+    (∀ c, fillAddr? (callSpec sh w true vf pan st).2.2 = some c → c = st.next) ∧
+    (∀ c, ctorConf? (callSpec sh w true vf pan st).2.2 = some c → c = st.next) ∧
+    (∀ c, prodCell? (callSpec sh w true vf pan st).2.2 = some c → c = st.next) ∧
+    (∀ c, c < st.next → (callSpec sh w true vf pan st).1 c = st.heap c) ∧
+    (∀ p, (callSpec sh w true vf pan st).2.2.res = .ok p → ∀ c, p.cell = some c →
+      ((callSpec sh w true vf pan st).1 c).get markField = p.serial) := by
+  unfold callSpec
+  simp only [cellOf_fresh hc hs, nextG_fresh hc hs, if_true, Bool.true_and]
+  by_cases h1 : w.hasFill = true <;> by_cases h2 : w.fillFault st.fills = true <;>
+  by_cases hcf : ctorFails sh w st.ctors = true <;>
+  by_cases hff : factFails sh w st.facts = true <;>
+  cases vf <;> cases hk : sh.cfg <;>
+  simp (config := { contextual := true }) [fillFails, hcf, hff, h1, h2, hk, fillEvs, fillAddr?, ctorConf?, prodCell?, shownConf, capture,
+    cellOf, hs, getHeap, markHeap, upd_lt, get_cons_self, List.findSome?_append, List.findSome?_cons, fillAddrEv, ctorConfEv] at hc ⊢
+theorem viewsOf_length (heap : Nat → Cfg) (steps : List Step) :
+    (viewsOf heap steps).length = (steps.filterMap prodCell?).length := by
+  induction steps with
+  | nil => rfl
+  | cons s l ih =>
+    obtain ⟨evs, res⟩ := s
+    simp only [viewsOf, List.filterMap_cons] at ih ⊢
+    cases res with
+    | ok p =>
+      obtain ⟨serial, cell, seen⟩ := p
+      cases cell <;> simp [prodCell?, product?, ih]
+    | made => simp [prodCell?, product?, ih]
+    | err e => simp [prodCell?, product?, ih]
+    | panic e => simp [prodCell?, product?, ih]
+
+/-- k successive reconfiguring calls -/
+theorem fresh_iter (sh : Shape) (w : World) (vf pan : Bool) (f : St → St × Step)
+    (hf : ∀ st, tri (f st) = callSpec sh w true vf pan st)
+    (hc : sh.cfg ≠ .none) (hs : sh.dflt ≠ .shared) (hvf : vf = sh.factory) (k : Nat) (st : St) :
+    (∀ s ∈ (iter f k st).2, freshCallOk sh w s = true) ∧
+    ((iter f k st).2.filterMap fillAddr?).Nodup ∧
+    ((iter f k st).2.filterMap ctorConf?).Nodup ∧
+    ((iter f k st).2.filterMap prodCell?).Nodup ∧
+    ∀ v ∈ viewsOf (iter f k st).1.heap (iter f k st).2, (v.1 : Int) = v.2 := by
+  have hall : ∀ st, (f st).1.next = st.next + 1 ∧
+      (∀ c, fillAddr? (f st).2 = some c → c = st.next) ∧
+      (∀ c, ctorConf? (f st).2 = some c → c = st.next) ∧
+      (∀ c, prodCell? (f st).2 = some c → c = st.next) ∧
+      (∀ c, c < st.next → (f st).1.heap c = st.heap c) ∧
+      (∀ p, (f st).2.res = .ok p → ∀ c, p.cell = some c → ((f st).1.heap c).get markField = p.serial) := by
+    intro st
+    obtain ⟨t1, t2, t3⟩ := tri_step (hf st)
+    rw [t1, t2, t3]
+    exact callSpec_alloc sh w vf pan st hc hs
+  have hkey : ∀ key : Step → Option Nat, (∀ st c, key (f st).2 = some c → c = st.next) →
+      ((iter f k st).2.filterMap key).Nodup := by
+    intro key hk
+    have := iter_keys f (fun _ => True) key (fun st _ => ⟨trivial, by rw [(hall st).1]; omega, fun c hcc => by
+      have := hk st c hcc; rw [(hall st).1]; omega⟩) k st trivial
+    exact pairwise_lt_nodup this.2.2
+  refine ⟨?_, hkey _ (fun st => (hall st).2.1), hkey _ (fun st => (hall st).2.2.1), hkey _ (fun st => (hall st).2.2.2.1), ?_⟩
+  · have := iter_inv f (fun _ => True) (fun s => freshCallOk sh w s = true)
+      (fun st _ => ⟨trivial, by rw [(tri_step (hf st)).2.2]; exact callSpec_freshCall sh w vf pan st hc hs hvf⟩) k st trivial
+    exact this.2
+  · exact iter_views f (fun _ => True) (fun st _ => ⟨trivial, by rw [(hall st).1]; omega, (hall st).2.2.2.2.1,
+      fun p c hp hcell => ⟨by
+        have : prodCell? (f st).2 = some c := by simp [prodCell?, product?, hp, hcell]
+        have := (hall st).2.2.2.1 c this
+        rw [(hall st).1]; omega, (hall st).2.2.2.2.2 p hp c hcell⟩⟩) k st trivial
+
+end Pandora.Proofs.C18
